@@ -607,6 +607,25 @@ class SymStr:
                 return [(OK, unk("collect-string"), st)]
         if c == "core::iter::traits::iterator::Iterator::collect" or c.endswith("::collect"):
             tyn = (n.get("ty") or "") if isinstance(n, dict) else ""
+            if a0 is not None and a0[0] == "abs" and a0[1] == "siter" and tyn.startswith(("core::result::Result<", "core::option::Option<")) and not tyn.split("<", 1)[1].startswith("alloc::string::String"):
+                # collecting Results / Options: the first Err / None is the result, otherwise the container of the payloads
+                # (vectors, and maps as insertion-ordered pair lists)
+                isres = tyn.startswith("core::result::Result<")
+                vals, stop = [], None
+                for it in a0[2][a0[3]:]:
+                    it = I.deref_val(st, it)
+                    if it[0] == "enum" and it[1] == (OKV if isres else SOME):
+                        vals.append(it[2][0])
+                    elif it[0] == "enum" and it[1] == (ERRV if isres else NONE):
+                        stop = it
+                        break
+                    else:
+                        stop = "?"
+                        break
+                if stop is None:
+                    return [(OK, ("enum", OKV if isres else SOME, (("abs", "svec", tuple(vals)),)), st)]
+                if stop != "?":
+                    return [(OK, stop, st)]
             if a0 is not None and a0[0] == "abs" and a0[1] == "siter" and ("BTreeSet<" in tyn or "HashSet<" in tyn):
                 # a set: order and multiplicity of the source are lost
                 items = [I.deep_deref(st, I.deref_val(st, x), 0) for x in a0[2][a0[3]:]]
@@ -621,6 +640,14 @@ class SymStr:
                 return [(OK, unk("iteration order of a set of symbolic texts"), st)]
             if a0 is not None and a0[0] == "abs" and a0[1] == "siter":
                 return [(OK, ("abs", "svec", a0[2][a0[3]:]), st)]
+        if c == "alloc::slice::<impl [T]>::concat" and a0 is not None and a0[0] == "abs" and a0[1] == "svec":
+            ps = [pieces_of(I.deref_val(st, x)) for x in a0[2]]
+            if all(x is not None for x in ps):
+                out = []
+                for x in ps:
+                    out.extend(x)
+                return [(OK, mk(out), st)]
+            return [(OK, unk("concat"), st)]
         if c == "alloc::slice::<impl [T]>::join":
             if a0 is not None and a0[0] == "abs" and a0[1] == "svec":
                 sep = pieces_of(I.deref_val(st, args[1]))
